@@ -544,6 +544,8 @@ class JunctionCompartment(Compartment):
         if self.vals[0] > 0:
             # Work out the outflow fractions
             outflow_fractions = np.maximum(np.array([link.parameter.vals[0] for link in self.outlinks]), 0.0)  # Negative proportions mean no flow
+            if np.sum(outflow_fractions) == 0:
+                raise BadInitialization(f'Junction "{self.name}" in population "{self.pop.name}" is initialized with people, but all of its outflow proportions are zero so they have nowhere to go')
             outflow_fractions /= np.sum(outflow_fractions)
 
             # Assign the inflow directly to the outflow compartments
@@ -2540,6 +2542,8 @@ class Model:
         for j in self._exec_order["junctions"]:
             try:
                 j.initial_flush()
+            except BadInitialization:
+                raise
             except Exception as e:
                 raise ModelError(f"Error when initially flushing junction: {j}") from e
 
